@@ -2,7 +2,8 @@
    Model/Proxy.v that the theorems of Properties/C19.v are about. *)
 From Coq Require Import Strings.String Strings.Byte.
 From Coq Require Import List Arith NArith ZArith Bool Lia.
-From Verif Require Import Base.Bytes Model.Proxy Generated.C19Proxy.
+From Verif Require Import Base.Bytes Model.Proxy Generated.C19Proxy Generated.C19Session
+  Proofs.ProxyProofs Proofs.ProxyRedialProofs.
 Import ListNotations.
 
 Lemma source_variant_lemma :
@@ -17,4 +18,19 @@ Proof.
   split; [vm_compute; reflexivity|]. split; [vm_compute; reflexivity|].
   split; [vm_compute; reflexivity|].
   intros s. reflexivity.
+Qed.
+
+(* session.go session.Call issues the call again iff it has more than one AsyncCall call
+   site, or one below a branch / loop / goto *)
+Definition src_call_reissues : bool :=
+  negb (Nat.eqb src_call_async_sites 1) || src_call_async_nested.
+
+Lemma source_call_lemma :
+  src_call_reissues = false /\ src_write_retry_guarded = true /\
+  forall h cl ft be pa frq,
+    client_call src_call_reissues h cl ft be pa frq
+    = session_forwarder be pa (fault_failure cl ft) frq.
+Proof.
+  split; [vm_compute; reflexivity|]. split; [vm_compute; reflexivity|].
+  intros. change src_call_reissues with false. apply client_call_refines.
 Qed.
